@@ -141,7 +141,7 @@ class C10(Check):
                'rxsci/operators/distinct_until_changed.py', 'rxsci/data/lag.py', 'rxsci/data/pad.py', 'rxsci/operators/start_with.py',
                'rxsci/data/batch.py', 'rxsci/data/sort.py']
     REQUIRED_TAGS = ['first', 'last', 'take', 'distinct', 'duc', 'lag', 'pad_start', 'pad_end', 'start_with', 'batch', 'sort',
-                     'plain', 'mux', 'group', 'roll', 'split', 'empty', 'has-None', 'len-multiple-of-n']
+                     'plain', 'mux', 'group', 'roll', 'split', 'scale', 'empty', 'has-None', 'len-multiple-of-n']
     REQUIRED_OBSERVED = ['sequences_compared']
 
     def generate(self, rng, tier, shard, nshards):
@@ -164,7 +164,17 @@ class C10(Check):
 
     def _random(self, rng, tier):
         k = 8000 if tier == 'quick' else 10 ** 7
+        big = [(['take', 300], ('plain', 'mux', 'group')), (['lag', 300], ('mux', 'group')), (['batch', 257], ('plain', 'mux', 'group', 'roll')),
+               (['batch', 1000], ('plain', 'mux')), (['pad_start', 300, 9], ('mux',)), (['pad_end', 260, None], ('mux',)),
+               (['distinct', None], ('mux', 'group')), (['take', 257], ('mux', 'split')), (['sort', 'k', True], ('plain',))]
         for j in range(k):
+            if j % 80 == 40:
+                # parameters beyond CPython's small-int cache (257+) on sequences of ~1100 items
+                node, modes = big[(j // 80) % len(big)]
+                yield {'op': node, 'mode': modes[(j // (80 * len(big))) % len(modes)],
+                       'seq': [rng.choice([0, 1, 2, None, 3, 4, 5, rng.randint(0, 400)]) for _ in range(rng.choice([700, 1100, 2001]))],
+                       'gseed': rng.randrange(1 << 30)}
+                continue
             node, modes = VARIANTS[j % len(VARIANTS)]
             mode = modes[(j // len(VARIANTS)) % len(modes)]
             n = node[1] if node[0] in ('batch', 'take', 'lag') and isinstance(node[1], int) and node[1] > 0 else rng.randint(1, 5)
@@ -186,6 +196,8 @@ class C10(Check):
             out.tags.append('len-multiple-of-n')
         if len(seq) >= 2:
             out.nontrivial = True
+        if len(seq) >= 500:
+            out.tags.append('scale')
         if name == 'sort':
             # (key, tag) pairs: equal keys keep their source order iff the sort is stable
             seq = [((x or 0), j) for j, x in enumerate(seq)]
